@@ -27,6 +27,8 @@ CFG = {
     "lean_files": ["SuccinctlyVerif/Props/C26.lean"],
     "generated": [],
     "canon": _canon,
-    "rule": "request = one tree (24 generated sub-trees) in three renderings x five programs applied to every sub-tree (3 CLI runs)",
+    "rule": "request = one tree (24 generated sub-trees) in three renderings x five programs applied to every sub-tree (3 CLI runs); "
+            "nav request = one tree carrying integers around 2^53, at both ends of the i64 range and 10^15..10^18, one navigation "
+            "(streamable) or evaluator program, 4 CLI runs (block YAML, flow YAML, JSON on stdin with -p json, JSON as a *.json file)",
     "explanation": "yq -o json output (exit code + stdout) identical for JSON, block YAML and flow YAML input of the same tree",
 }
